@@ -72,6 +72,16 @@ func (c *Ctx) sanitizeClosure() *ssa.Function {
 	if fn == nil {
 		return nil
 	}
+	// the closure sanitizeFn returns (other literals of sanitizeFn are helpers of it)
+	for _, r := range returnsOf(fn) {
+		for _, va := range resultValues(r, 0) {
+			if mc, ok := stripConv(va.Val).(*ssa.MakeClosure); ok {
+				if g, isF := mc.Fn.(*ssa.Function); isF && g.Parent() == fn {
+					return g
+				}
+			}
+		}
+	}
 	for _, f := range fn.AnonFuncs {
 		return f
 	}
@@ -138,7 +148,14 @@ func (c *Ctx) checkSanitizeRanges(rule string) {
 		for _, f := range frontier {
 			instrsOf(f, func(in ssa.Instruction) {
 				if call, ok := in.(ssa.CallInstruction); ok {
-					if g := staticCallee(call); g != nil && c.inModule(g) && g.Blocks != nil && !seenFn[g] {
+					g := staticCallee(call)
+					if g == nil && !call.Common().IsInvoke() {
+						// a sibling literal held in a captured single-assignment variable (inRange := func...)
+						if mc, isMC := canon(call.Common().Value).(*ssa.MakeClosure); isMC {
+							g, _ = mc.Fn.(*ssa.Function)
+						}
+					}
+					if g != nil && c.inModule(g) && g.Blocks != nil && !seenFn[g] {
 						seenFn[g] = true
 						scan = append(scan, g)
 						next = append(next, g)
